@@ -63,7 +63,7 @@ def strategy(tier):
         },
         st.integers(0, 5),
         st.lists(st.lists(st.integers(0, 13), max_size=5), max_size=5),
-        st.integers(0, 5), prior, st.sampled_from([0, 0, 0, 1, 2, 3, 4]), st.integers(0, 4), st.lists(st.integers(0, 4), max_size=3),
+        st.integers(0, 5), prior, st.sampled_from([0, 0, 0, 1, 2, 3, 4]), st.integers(0, 7), st.lists(st.integers(0, 4), max_size=3),
     )
     return st.one_of(d, m)
 
@@ -233,6 +233,7 @@ def check_matrix(case):
     before = snap(vs)
     rows = [[CELLS[c] for c in row] for row in case["cells"]]
     side = list(vs)
+    as_tuples = bool(case["badpos"] & 4) and not (n > 0 and case["badpos"] % 2)
     bad = case["bad"]
     pos = case["badpos"]
     label = "ok"
@@ -253,6 +254,8 @@ def check_matrix(case):
     if label != "ok":
         extra = [x for x in side if all(x is not v for v in vs)]
         bext = snap(extra)
+        if case["badpos"] & 4:
+            rows, side = tuple(tuple(r) for r in rows), tuple(side)     # the same input written with tuples
         try:
             adjmatrix.load_adj_matrix(rows, side, C.LINK_CLASSES[case["cls"]])
         except ValueError:
@@ -264,7 +267,10 @@ def check_matrix(case):
         require(snap(vs) == before and snap(extra) == bext, "bad-input-touched-graph", f"{label}: a vertex gained a link or a universe although ValueError was raised")
         return dict(nt=True, classes=["matrix-error:" + label])
     try:
-        u = adjmatrix.load_adj_matrix(rows, side, C.LINK_CLASSES[case["cls"]])
+        if as_tuples:
+            u = adjmatrix.load_adj_matrix(tuple(tuple(r) for r in rows), tuple(side), C.LINK_CLASSES[case["cls"]])
+        else:
+            u = adjmatrix.load_adj_matrix(rows, side, C.LINK_CLASSES[case["cls"]])
     except Exception as e:  # noqa
         raise Violation("load_adj_matrix-raised", repr(e))
     pairs = [(i, j) for i in range(n) for j in range(n) if rows[i][j]]
